@@ -43,7 +43,7 @@ pub fn convert_like_to_pattern(s: &str) -> String {
         match c.index(0) {
             "%" => ".*",
             "_" => ".",
-            "?" => ".?",
+            "?" => "\\?",
             "." => "\\.",
             "*" => "\\*",
             "[" => "\\[",
